@@ -77,6 +77,55 @@ CHECKS = {
              'are compared there. Theorems over the traversal model are still being added.',
         technique='Lean 4 model + differential correspondence + independent-walk oracle',
         ref='§4 C08'),
+    'C06': dict(
+        text='Lean model of Buildable.__eq__ over two heaps (Python == on values with defaults-aware children, '
+             'then a lockstep walk maintaining a one-to-one object correspondence); correspondence of == in both '
+             'directions on generated pairs; oracle: reflexive, symmetric, transitive, never raises, != is the '
+             'negation, equality-preserving rewrites keep ==, equality-breaking rewrites are distinguished, and '
+             'equal configurations build equal canonical object graphs.',
+        note=TB + 'Leaves on which Python == identifies values of different types (1 / True / 1.0) are not generated.',
+        technique='Lean 4 model + differential correspondence + metamorphic oracle (rewrites)',
+        ref='§4 C06'),
+    'C07': dict(
+        text='Copies checked two ways: (A) a copy of one Buildable followed by an edit history must behave exactly '
+             'like the ArgStore model run from the original constructor arguments while the original is unchanged; '
+             '(B) on whole DAGs: canonical forms, identity intersection of every mutable part, edits of values, tags '
+             'and containers on the copy, for deepcopy / pickle / deepcopy_with / copy / copy_with / cast.',
+        note=TB + 'HistoryEntry objects are immutable and may be shared; history lists may not.',
+        technique='Lean 4 model (ArgStore) + differential correspondence + identity-intersection oracle',
+        ref='§4 C07'),
+    'C14': dict(
+        text='Tag sets are part of the ArgStore Lean model (add/remove/set/clear, TaggedValue expansion); '
+             'correspondence after every op of generated histories plus a set-per-argument reference oracle; on '
+             'DAGs: set_tagged and select(tag=).replace exactness and frame, list_tags, survival through copy / '
+             'deepcopy / cast / JSON round trip / diff application, TaggedValue build.',
+        note=TB,
+        technique='Lean 4 model + differential correspondence + frame/exactness oracle',
+        ref='§4 C14'),
+    'C15': dict(
+        text='select() decided on the real code against an independent graph walk: exact-once iteration under '
+             'every match_subclasses / buildable_type setting over a class hierarchy, set (single and multiple '
+             'keywords), replace (copying, non-copying, with a replacement equal to the matches), tag-selection '
+             'iteration; Lean theorems concern the memoized walk model.',
+        note=TB + 'No model correspondence yet for replace; the oracle is an independent implementation.',
+        technique='Lean 4 model of the memoized walk + independent-walk oracle',
+        ref='§4 C15'),
+    'C17': dict(
+        text='55 read-only / copy-returning entry points are run on generated configurations (six flavours incl. '
+             'positional arguments, long values, callables that edit their arguments in place, argument-less tagged '
+             'sub-configs); before/after snapshots of canonical form, tags and identities of every mutable part; '
+             'returned copies are edited. Lean: frame theorems for traversals and copy-then-edit.',
+        note=TB + 'Membership of each API in the two proved mechanisms is checked on generated inputs, not proved.',
+        technique='Lean 4 frame theorems + before/after snapshot oracle over all entry points',
+        ref='§4 C17'),
+    'C20': dict(
+        text='Seven transformations + auto_config.inline + convert_dataclasses_to_configs: canonical form of '
+             'build(original) vs build(transformed) with callable values compared by full binding, == for '
+             'materialize_defaults / with_defaults_trimmed, idempotence and totality of materialize_defaults '
+             '(mirrored in the ArgStore Lean model), serializability preserved, input unchanged.',
+        note=TB + 'One open finding (trim-mutable-default) in known_findings.json.',
+        technique='Lean 4 model (materialize on ArgStore) + metamorphic build-equivalence oracle',
+        ref='§4 C20'),
 }
 
 NOT_YET = {}
